@@ -4,7 +4,7 @@ import ast
 
 from sa.helpers import (the_return, mkflow, spec, code, one, calls, bind_call, param_env,
                         fmt, atom_of, unparse, walk_no_nested)
-from sa.helpers import guard_is
+from sa.helpers import guard_is, unlicensed
 from sa.index import AnalysisError, Index, FuncInfo
 from sa.algebra import RF, Slice, dotted
 
@@ -321,13 +321,21 @@ def run(ix, R):
     site = 'taurex/util/util.py::random_int_iter'
     with R.guard('2.rand', 'MPI', site, 'random source'):
         f = ix.func(site)
-        from sa.helpers import need
         ps = f.params()
-        b = need(R, '2.rand', 'MPI', site, 'the sub-sample is random.sample(range(total), int(total*fraction)) without replacement', f,
-                 ['V_n = int(V_t * V_f)', 'V_s = random.sample(range(V_t), V_n)', '''
-for V_x in V_s:
-    yield V_x
-'''], binding={'V_t': ps[0], 'V_f': ps[1]})
+        fl = mkflow(ix, site)
+        pe = param_env(fl, f, ['t', 'fr'])
+        y = one(fl.of('yield'), 'yield')
+        lp = one(y.loops, 'loop around the yield')
+        why = []
+        want = spec(fl, 'random.sample(range(t), int(t*fr))', pe)
+        if not fl.tab.equal(fl.conv._iterand(lp.iter_rf[0]), want):
+            why.append('iterates over %s' % fmt(fl, lp.iter_rf[0]))
+        if y.value is None or not fl.tab.equal(y.value, fl.tab.atom('elem', (lp.iter_rf[0], lp.index))):
+            why.append('yields %s' % fmt(fl, y.value))
+        if unlicensed(fl, y):
+            why.append('the yield is conditional: %s' % [g.text() for g in unlicensed(fl, y)])
+        R.check('2.rand', 'MPI', site, 'the sub-sample is random.sample(range(total), int(total*fraction)) without replacement: '
+                'every drawn index is yielded once', not why, key='; '.join(why), detail='; '.join(why), loc=f.loc(y.node))
         seeded = any(isinstance(n, ast.Call) and (dotted(n.func) or '').endswith('seed') for n in ast.walk(f.node))
         R.check('2.noseed', 'MPI', site, 'no (rank-dependent) re-seeding of the random source', not seeded,
                 key='seed call', detail='random_int_iter re-seeds the generator', loc=f.loc())
